@@ -695,7 +695,9 @@ def run(ctx):
             continue
         attributed["own_key"] += 1
         if p[0] == "R":
-            ctx.violation("diverge:%s:%s" % (c.family, cl),
+            # the encodings with 64-bit signed parts share one cause: one key family
+            kf = "ll_parts" if c.family.endswith("ll") else c.family
+            ctx.violation("diverge:%s:%s" % (kf, cl),
                           "%s level, encoding %s (%s), a[%s] on extent %d: %s (symptom: %s); the packed int reference encoding is correct here" % (
                               lvl(c), c.family, c.op, np_text(c.parts), n, text, sym), det)
         else:
